@@ -111,7 +111,10 @@ Prefix(payload) == BEn(Len(payload), 4)
 LabelsOK(s, lo) == \A k \in DOMAIN s : Len(s[k].label) >= lo /\ Len(s[k].label) <= 255
 OptLabelsOK(s, lo) == \A k \in DOMAIN s : s[k] = <<>> \/ (Len(s[k][1].label) >= lo /\ Len(s[k][1].label) <= 255)
 \* numeric order of two doubles given as bytes is not needed: the harness logs `sorted` for 1.x grids
-Grid1OK(g, sorted) == Len(g) = 0 \/ (Len(g) >= 2 /\ Len(g) <= 32768 /\ sorted)
+\* the distance to the next marker is stored in a signed 32-bit field: neighbours more than 2^31 - 1 beats apart cannot be held
+\* (written without subtracting across the sign change: TLC's integers are 32-bit too)
+FitsGap(a, b) == IF a < 0 /\ b >= 0 THEN b <= 2147483647 + a ELSE TRUE
+Grid1OK(g, sorted) == Len(g) = 0 \/ (Len(g) >= 2 /\ Len(g) <= 32768 /\ sorted /\ \A k \in 1 .. Len(g) - 1 : FitsGap(g[k].idx, g[k + 1].idx))
 
 Encodable(kind, v, aux) ==
     CASE kind = "track_data2" -> TRUE
